@@ -204,6 +204,8 @@ func checkerBalanced(s string) bool {
 }
 
 func runC16(p *Program, r *Report) {
+	engineConsistency(p, r, "C16.E", func(n string) bool { return strings.Contains(n, "safehtml.") })
+
 	r.Trusted = []string{"go/types + go/ssa", "SAFE_SEL: hand-written DFA of the CSS Syntax 3 tokenizer subset (DESIGN A.8)", "hasBalancedBrackets accepts properly nested strings and rejects unbalanced ones (only its presence as a guard and its bracket table are checked)", "regexp.ReplaceAllString removes one particular decomposition into matches (the over-approximation ranges over all decompositions)"}
 	r.NotDecided = []string{"the stack algorithm of hasBalancedBrackets", "bracket balance itself (not regular; left out of SAFE_SEL)"}
 	r.Explain = "The only construction is Sprintf(\"%s{%s}\", selector, style.String()) and every error path returns the zero StyleSheet; the guards that dominate it are turned into an over-approximation of the accepted selectors — (V|STR)* without '<' plus any further regular guard on the string-stripped selector, computed as automata over all Unicode — and shown included in SAFE_SEL; a failed inclusion is reported only when a witness is confirmed (stripped with the repository's pattern constants through package regexp, balanced by the checker's own bracket matcher)."
